@@ -15,11 +15,14 @@ THEOREMS = [
     "BeyondVerif.C12.line_number_checked",
     "BeyondVerif.C12.digit_corruption_rejected",
     "BeyondVerif.C12.epoch_roundtrip",
-    "BeyondVerif.C12.from_string_yields_valid_entries_partial",
+    "BeyondVerif.C12.too_few_lines_rejected",
+    "BeyondVerif.C12.from_string_yields_valid_entries",
+    "BeyondVerif.C12.from_string_framed_exact",
     "BeyondVerif.C12.reference_tles_roundtrip",
-    "BeyondVerif.C12W.leading_blank_accepted_misparsed",
-    "BeyondVerif.C12W.from_string_loses_valid_entry",
-    "BeyondVerif.C12W.ecc_rounds_to_zero",
+    "BeyondVerif.C12W.leading_blank_now_harmless",
+    "BeyondVerif.C12W.from_string_keeps_valid_entry",
+    "BeyondVerif.C12W.ecc_one_refused",
+    "BeyondVerif.C12W.missing_line_is_parse_error",
 ]
 LEVEL_TEXT = ("Lean theorems over a List Char / Int model of beyond/io/tle.py whose column slices and writer layout are regenerated from the Python AST on every "
               "run (the hand-modelled functions are compared statement by statement with the source the model was written from): for EVERY line the "
@@ -386,9 +389,10 @@ def write_checks(out, orb, what, inp, name=None):
         bad.append(("n", n * rd, tle.n * rd))
     if abs(orb.ndot - tle.ndot) > 2 * half(1e-8):
         bad.append(("ndot", orb.ndot, tle.ndot))
-    for nm in ("ndotdot", "bstar"):
+    for nm, mul in (("ndotdot", 6), ("bstar", 1)):
         a, b = getattr(orb, nm), getattr(tle, nm)
-        if abs(a - b) > 0.5e-4 * abs(a) * (1 + 1e-6) + 1e-300:
+        # five significant digits, or the last column of the non-normalised notation below 1e-10 (0.00001e-9)
+        if abs(a - b) > max(0.5e-4 * abs(a), 0.5e-14 * mul) * (1 + 1e-6) + 1e-300:
             bad.append((nm, a, b))
     if (tle.norad_id, tle.element_nb, tle.revolutions) != (int(orb.norad_id), orb.element_nb, orb.revolutions):
         bad.append(("ids", (tle.norad_id, tle.element_nb, tle.revolutions), (orb.norad_id, orb.element_nb, orb.revolutions)))
@@ -427,7 +431,8 @@ def gen_float_orbit(rng):
         if k < 0.15:
             return 0.0
         if k < 0.25:
-            return rng.choice([1.0, -1.0, 0.999996, 9.99996e-5, 0.1, 1e-9, -1e-9, 0.999994e-3, 12345.0, 99999e4, -0.99999e9])
+            return rng.choice([1.0, -1.0, 0.999996, 9.99996e-5, 0.1, 1e-9, -1e-9, 0.999994e-3, 12345.0, 99999e4, -0.99999e9,
+                               4.982e-11, -4.411e-11, 9.99996e-11, -9.99996e-11, 1.2345e-12, -6e-14, 4e-15, -4e-15, 9.9999e-11])
         return rng.choice([-1, 1]) * rng.uniform(0.1, 1) * 10.0 ** rng.randint(-9, 8)
     y = rng.randint(1957, 2056)
     span = (datetime(y + 1, 1, 1) - datetime(y, 1, 1)).days * 86400 * 10**6
@@ -455,11 +460,21 @@ def o_write(out, rng):
     out.count(key=repr(inp["vals"]), kind="write-float", writable=tle is not None)
     if tle is None:
         out.tally("unwritable=" + err[:24])
+        e = inp["vals"][2]
+        if not e >= 0.99999995:
+            # every other generated value fits its columns (drag terms below 1e-10 in the non-normalised notation)
+            small = [x for x in (inp["data"]["bstar"], inp["data"]["ndotdot"] / 6) if 0 < abs(x) < 1e-10]
+            out.fail("write-small-drag-unwritable" if small else "write-in-range-unwritable", "an orbit inside the ranges of the format cannot be written", inp,
+                     observed=err, expected="a TLE")
         return
     # second generation: text -> orbit -> text must be a fixed point unless an angle was rounded up to 360.0000
     l1, l2 = tle.text.split("\n")
     if "360.0000" in l2:
         out.tally("written-angle-360.0000")
+        return
+    if "00000-9" in l1:
+        # |x| < 0.5e-14 is written as a zero mantissa with exponent -9; the second generation writes the canonical zero 00000-0
+        out.tally("written-zero-mantissa-exponent-9")
         return
     yy, day = int(l1[18:20]), l1[20:32]
     if day in ("366.00000000", "367.00000000") and int(day[:3]) == (367 if is_leap(full_year(yy)) else 366):
@@ -818,6 +833,9 @@ def _unfloat(flt, precision=5):
 
     num, _, exp = f"{flt:.{precision - 1}e}".partition("e")
     exp = int(exp)
+    if exp + 1 < -9:
+        digits = round(abs(flt) * 10 ** (9 + precision))
+        return f"{'-' if flt < 0 else ''}{digits:0{precision}d}-9"
     num = num.replace(".", "")
 
     return f"{num}{exp+1:+d}"
@@ -826,6 +844,9 @@ def _unfloat(flt, precision=5):
 class Tle:
     @classmethod
     def _check_validity(cls, text):
+        if len(text) < 2:
+            raise TleParseError(f"Invalid TLE: expected 2 lines, got {len(text)}.")
+
         if not text[0].lstrip().startswith("1 ") or not text[1].lstrip().startswith(
             "2 "
         ):
@@ -860,6 +881,7 @@ class Tle:
             if not line.strip() or line.startswith(comments):
                 continue
             if line.startswith("1 "):
+                cache = [x for x in cache[-1:] if not x.startswith("1 ")]
                 cache.append(line)
             elif line.startswith("2 "):
                 cache.append(line)
@@ -900,6 +922,22 @@ def check_modelled_shape(tree):
     for nm in ("_check_validity", "_checksum", "from_string"):
         if _strip_doc(_find(tree, "Tle", nm)) != _strip_doc(_find(ref, "Tle", nm)):
             raise RuntimeError(f"Tle.{nm} differs from the source the model Model/Tle.lean was written from")
+
+
+def check_statements(tree):
+    """single statements of Tle.__init__ / Tle.from_orbit that the model mirrors"""
+    init = _find(tree, "Tle", "__init__")
+    dumps = [ast.dump(x) for x in init.body]
+    want = [ast.dump(x) for x in ast.parse("self._check_validity(text)\ntext = [line.strip() for line in text]\nself.text = '\\n'.join(text)\nfirst, second = text[0], text[1]").body]
+    k = dumps.index(want[0]) if want[0] in dumps else -1
+    if k < 0 or dumps[k:k + 4] != want:
+        raise RuntimeError("Tle.__init__ no longer validates, strips the lines, stores them and reads first/second from them, in that order")
+    fo = _find(tree, "Tle", "from_orbit")
+    want = ast.dump(ast.parse("if not '{:.7f}'.format(e).startswith('0.'):\n    raise TleParseError(f'Eccentricity {e} can not be written in a TLE')").body[0])
+    pos = [i for i, x in enumerate(fo.body) if ast.dump(x) == want]
+    first_fmt = [i for i, x in enumerate(fo.body) if isinstance(x, ast.Assign) and isinstance(x.targets[0], ast.Name) and x.targets[0].id == "line1"]
+    if len(pos) != 1 or not first_fmt or pos[0] > first_fmt[0]:
+        raise RuntimeError("Tle.from_orbit no longer refuses an eccentricity that prints as 1.0000000 before formatting the lines")
 
 
 def read_checksum(tree):
@@ -991,6 +1029,7 @@ def read_writer(tree):
 def extract(ctx):
     tree = ast.parse(open(TLE_PY).read())
     check_modelled_shape(tree)
+    check_statements(tree)
     cols = read_columns(tree)
     ck = read_checksum(tree)
     f1, f2 = read_writer(tree)
@@ -1052,6 +1091,11 @@ def real_error_token(e):
         g = re.match(r"TLE checksum validation failed on line (\d+)\.", m)
         if g:
             return f"err parse-error checksum {g.group(1)}"
+        g = re.fullmatch(r"Invalid TLE: expected 2 lines, got (\d+)\.", m)
+        if g:
+            return f"err parse-error line-count {g.group(1)}"
+        if re.fullmatch(r"Eccentricity \S+ can not be written in a TLE", m):
+            return "err parse-error eccentricity"
         return "err parse-error ?" + m
     if isinstance(e, ValueError):
         return "err value-error"
@@ -1122,6 +1166,9 @@ def real_parse_token(lines):
 
 def rec_line(r):
     def u(x):
+        if x[1] != 0 and x[2] < -9:
+            # what _unfloat sees below 1e-10: the value in units of 1e-14, rounded half even
+            return f"s {1 if x[0] else 0} {round(Fraction(x[1], 10**5) * Fraction(10) ** (x[2] + 14))}"
         return "z" if x[1] == 0 else f"{1 if x[0] else 0} {x[1]} {x[2]}"
     c = r["cospar"]
     return " ".join(["tle.write", hx(r["name"]), str(r["norad"]), hx(c), str(r["yy"]), str(r["day8"]), "1" if r["ndot"][0] else "0", str(r["ndot"][1]),
